@@ -3401,6 +3401,10 @@ impl Lexer<'_> {
         );
 
         self.handle_unterminated_str_expr(payload);
+
+        // `finalize_lexing` calls the handler with the string expression mode already
+        // popped, so the mode is popped here and not in the handler
+        self.pop_mode();
     }
 
     fn handle_unterminated_str_expr(&mut self, payload: Payload) {
@@ -3422,7 +3426,6 @@ impl Lexer<'_> {
             self.emit_token(TokenChannel::DEFAULT, TokenType::StringExprEnd, payload);
         }
         self.emit_error(ErrorKind::UnterminatedStringLiteral);
-        self.pop_mode();
     }
 
     fn lex_double_quoted_literal(&mut self, mut payload: Payload) {
